@@ -145,7 +145,8 @@ class Spec:
         self.map_terms = []
 
     def install(self, eng):
-        pass
+        from . import lemmas
+        eng.builtins["__mapbuilt__"] = lemmas.map_built
 
     def global_axioms(self):
         x = z3.Real("x!ax")
@@ -158,7 +159,8 @@ class Spec:
         return [T_QTY, ("obj", "Level"), ("obj", "Measurement"), T_UNIT, T_PFX, T_DIM, ("num",), ("other",)]
 
     def applicable(self, K, a):
-        return True
+        f = getattr(K, "applicable", None)
+        return f(a) if f else True
 
     def combo_ok(self, K, combo):
         f = getattr(K, "combo_ok", None)
@@ -166,7 +168,8 @@ class Spec:
 
     def lemma_instances(self, ob):
         from . import lemmas
-        return lemmas.instances(ob)
+        from pyvc.ops import divmod_axioms
+        return lemmas.instances(ob, list(self.global_axioms()) + divmod_axioms())
 
     def describe_model(self, model, ob):
         return str(model)[:4000]
@@ -212,3 +215,89 @@ def I_P(c):
 
 
 INVARIANTS["I_P"] = I_P
+
+
+# ---------------------------------------------------------------------------------------------
+# Unit
+
+
+def ukey(prefix_ref, fmap_z):
+    return sort_of(T_UKEY).constructor(0)(prefix_ref, fmap_z)
+
+
+def fmap_z(dom, val):
+    return map_parts(sort_of(T_FMAP))[0](dom, val)
+
+
+def single_map(b_ref, n=1):
+    U = Ref("Unit")
+    return fmap_z(z3.Store(z3.K(U, z3.BoolVal(False)), b_ref, z3.BoolVal(True)),
+                  z3.Store(z3.K(U, z3.IntVal(0)), b_ref, z3.IntVal(n)))
+
+
+def is_base(c, b):
+    """b is a base unit: its factor map is {b: 1} and it carries no prefix"""
+    return z3.And(c.fz("Unit", b, "factors") == single_map(b), c.fz("Unit", b, "prefix") == IdentityPrefix.ref)
+
+
+def NF(c, m, self_ref=None):
+    """Normal form of a factor map value m (VMap): keys are alive initialised base units,
+    no zero exponents, not empty, One only as {One: 1}, val normalised to 0 outside dom."""
+    b = z3.Const("b!NF", Ref("Unit"))
+    yield "nonempty", m.dom != z3.K(Ref("Unit"), z3.BoolVal(False))
+    keyok = z3.And(c.alivez("Unit", b), c.fz("Unit", b, "_initialized"), is_base(c, b))
+    if self_ref is not None:
+        keyok = z3.Or(b == self_ref, keyok)
+    yield "keys-base", z3.ForAll([b], z3.Implies(z3.Select(m.dom, b), z3.And(keyok, z3.Select(m.val, b) != 0)))
+    yield "normalised", z3.ForAll([b], z3.Implies(z3.Not(z3.Select(m.dom, b)), z3.Select(m.val, b) == 0))
+    yield "one-alone", z3.Implies(z3.Select(m.dom, One.ref), fmap_z(m.dom, m.val) == single_map(One.ref))
+
+
+def inv_dim_at(c, u_ref):
+    """C01 at one unit: its dimension's exponents are the fold of its factors"""
+    i = z3.Int("i!dim")
+    d = c.fz("Unit", u_ref, "dimension")
+    F = wrap(c.fz("Unit", u_ref, "factors"), T_FMAP)
+    return z3.ForAll([i], z3.Implies(z3.And(i >= 0, i < NDIM),
+                                     z3.Select(ITup.iarr(c.fz("Dimension", d, "exponents")), i) == dimOf(F.val, i)))
+
+
+def wf_parts(c, u):
+    """per-unit parts of I_U, named"""
+    F = wrap(c.fz("Unit", u, "factors"), T_FMAP)
+    p, d = c.fz("Unit", u, "prefix"), c.fz("Unit", u, "dimension")
+    yield "prefix-live", z3.And(c.alivez("Prefix", p), c.fz("Prefix", p, "_initialized"))
+    yield "dimension-live", z3.And(c.alivez("Dimension", d), c.fz("Dimension", d, "_initialized"))
+    for nm, f in NF(c, F):
+        yield "NF-" + nm, f
+    yield "C01-dimension-is-fold", inv_dim_at(c, u)
+
+
+def wf_unit_at(c, u):
+    return z3.And([f for _, f in wf_parts(c, u)])
+
+
+def I_U(c):
+    """Unit intern table + representation invariant + C01 (Inv_dim) for every unit."""
+    T = c.g("Unit._known")
+    ks = sort_of(T_UKEY)
+    k0, k1 = ks.accessor(0, 0), ks.accessor(0, 1)
+    k = z3.Const("k!IU", ks)
+    u = z3.Const("u!IU", Ref("Unit"))
+    live = lambda r: z3.And(c.alivez("Unit", r), c.fz("Unit", r, "_initialized"))
+    yield "I_U.entries", z3.ForAll([k], z3.Implies(
+        z3.Select(T.dom, k),
+        z3.And(live(z3.Select(T.val, k)), c.fz("Unit", z3.Select(T.val, k), "prefix") == k0(k),
+               c.fz("Unit", z3.Select(T.val, k), "factors") == k1(k))))
+    yield "I_U.canonical", z3.ForAll([u], z3.Implies(
+        live(u),
+        z3.And(z3.Select(T.dom, ukey(c.fz("Unit", u, "prefix"), c.fz("Unit", u, "factors"))),
+               z3.Select(T.val, ukey(c.fz("Unit", u, "prefix"), c.fz("Unit", u, "factors"))) == u)))
+    for nm, f in wf_parts(c, u):
+        yield "I_U." + nm, z3.ForAll([u], z3.Implies(live(u), f))
+    i = z3.Int("i!one")
+    yield "I_U.one", z3.And(live(One.ref), c.f(One, "prefix") == IdentityPrefix.ref, c.f(One, "factors") == single_map(One.ref),
+                            c.f(One, "dimension") == Number.ref, z3.ForAll([i], bdexp(One.ref, i) == 0))
+
+
+INVARIANTS["I_U"] = I_U
